@@ -378,6 +378,16 @@ def c02(rep, tier):
             'release loop not recognised', '%s:%d' % (rel(lib, clr['file']), clr['loc'][1]))
     comp = lib.fn('Theo::compile')
     rep.analysed(comp)
+    if not all(any(x.get('k') == 'call' and x.get('callee') == q_ for x in walk_all_exprs(comp['body'])) for q_ in ('Theo::gen', 'Theo::AST::clear')):
+        # gen() and the release of the tree moved into a helper (gen_and_release(a)): look at compile() with the helper put back
+        from .inline import inlined
+        comp_i, names_i = inlined(lib, comp, rounds=2)
+        if names_i:
+            comp = comp_i
+            for n_ in names_i:
+                for h_ in lib.functions:
+                    if h_['q'] == n_ and h_.get('body') is not None:
+                        rep.analysed(h_)
     gc = M.cfg(comp)
     pc = [ev for ev in gc.calls() if ev.e.get('callee') == 'Theo::parse']
     cl = [ev for ev in gc.calls() if ev.e.get('callee') == 'Theo::AST::clear']
@@ -512,13 +522,70 @@ def c02(rep, tier):
                         '%s:%d' % (rel(lib, ga['file']), loops[0]['loc'][0]), witness={'input': 'a source whose only error is reported at the placeholder position "-", -1 (too many macro substitutions)'})
     E.check(okg, 'gen_ast: errors forwarded', 'generation only when parsed_correctly; otherwise every parse error is forwarded',
             'an incorrectly parsed tree is generated, or its errors are dropped', '%s:%d' % (rel(lib, ga['file']), ga['loc'][1]))
-    cf = lib.fn('Theo::compile')
+    cf = comp if comp.get('inlined') else lib.fn('Theo::compile')
     retc = [s for s in walk_stmts(cf['body']) if s['k'] == 'return']
-    okc2 = len(retc) == 1 and M.origin(cf, retc[0]['e']) is not None and is_call(strip_copies(M.origin(cf, strip_copies(retc[0]['e']))), 'Theo::gen')
+    def deep_origin(fx, e, n=5):
+        e = strip_copies(strip_casts(e)) if e is not None else None
+        while e is not None and e.get('k') == 'ref' and n > 0:
+            o = M.origin(fx, e)
+            if o is None or o is e:
+                break
+            e = strip_copies(strip_casts(o))
+            n -= 1
+        return e
+    okc2 = len(retc) == 1 and is_call(deep_origin(cf, retc[0]['e']), 'Theo::gen')
     writes = [e for e in walk_all_exprs(cf['body']) if (e.get('k') == 'assign' or (e.get('k') == 'call' and (e.get('callee') or '').endswith('::operator='))) and
               field_chain(e.get('l') or e.get('obj'))[1][-1:] in (['generated_correctly'], ['errors'])]
     E.check(okc2 and not writes, 'compile: result', 'returns gen()\'s result without touching generated_correctly/errors', 'compile() alters the verdict of gen()',
             '%s:%d' % (rel(lib, cf['file']), cf['loc'][1]))
+
+    # ... and a diagnostic that was recorded stays recorded: the error lists of the stages and of the result only grow (a list may be
+    # emptied before anything was pushed into it)
+    def is_err_list(x):
+        t = (strip_casts(x).get('cty') or '') if x is not None else ''
+        return t.replace('const ', '').startswith('std::vector<') and any(r in t for r in ('ParseError', 'SyntaxError', 'CodegenResult::Error'))
+    removed = []
+    n_lists = 0
+    for f in lib.functions:
+        if f.get('body') is None or f['tmpl'] == 'pattern' or not f['file'].startswith(lib.repo):
+            continue
+        pushes = [e for e in walk_all_exprs(f['body']) if e.get('k') == 'call' and e.get('obj') is not None and is_err_list(e['obj']) and
+                  (e.get('callee') or '').split('::')[-1] in ('push_back', 'emplace_back', 'insert')]
+        n_lists += len(pushes)
+        for e in walk_all_exprs(f['body']):
+            tgt, how = None, None
+            if e.get('k') == 'call' and e.get('obj') is not None and is_err_list(e['obj']):
+                short = (e.get('callee') or '').split('::')[-1]
+                if short in ('erase', 'pop_back', 'resize', 'swap'):
+                    tgt, how = e['obj'], short
+                elif short in ('clear', 'assign', 'operator='):
+                    tgt, how = e['obj'], short + ' (after errors may have been recorded)'
+            elif e.get('k') == 'assign' and is_err_list(e['l']):
+                tgt, how = e['l'], '= (after errors may have been recorded)'
+            elif e.get('k') == 'call' and e.get('obj') is None and (e.get('callee') or '').split('::')[-1] in ('erase_if', 'erase', 'remove_if', 'remove', 'unique') and e.get('args'):
+                a0 = strip_casts(strip_copies(e['args'][0]))
+                if a0 is not None and a0.get('k') == 'call' and a0.get('obj') is not None and (a0.get('callee') or '').split('::')[-1] in ('begin', 'end'):
+                    a0 = strip_casts(a0['obj'])
+                if a0 is not None and is_err_list(a0):
+                    tgt, how = a0, (e.get('callee') or '').split('::')[-1]
+            if tgt is None:
+                continue
+            if 'after errors' in how:
+                # harmless when nothing can have been pushed into this list before (initialisation of a fresh result)
+                gg_ = M.cfg(f)
+                prior = [p_ for p_ in pushes if show(strip_casts(p_['obj'])) == show(strip_casts(tgt)) and p_.get('sid') in gg_.by_sid and e.get('sid') in gg_.by_sid and
+                         gg_.can_follow(gg_.ev(p_), gg_.ev(e))]
+                if not prior:
+                    continue
+            removed.append((f, e, how))
+    for f, e, how in removed:
+        E.violation('%s: %s' % (f['q'], show(e)[:60]), 'recorded diagnostics are removed again (%s): a source that was found faulty can come back marked incorrect with an incomplete or '
+                    'empty error list' % how, '%s:%d' % (rel(lib, f['file']), e['loc'][0]), witness={'input': 'an empty main file: its only error is located at the end of the hidden standard-macro file'})
+    if not removed:
+        if n_lists < 5:
+            E.unknown('diagnostics only grow', 'only %d append(s) to error lists found' % n_lists)
+        else:
+            E.ok('diagnostics only grow', '%d appends to error lists, no removal from any of them' % n_lists, 'Compiler/src')
 
     # ------------------------------------------------------------------ f: error records
     F = rep.rule('C02.f', 'every error record has a non-empty message and a location taken from a token, a node, the scanner\'s '
